@@ -1,0 +1,37 @@
+//go:build verif
+
+// Export shims for the verification harness under /verif (build tag "verif" only).
+package xds
+
+import (
+	"istio.io/istio/pilot/pkg/model"
+	"istio.io/istio/pkg/config/schema/kind"
+	"istio.io/istio/pkg/util/sets"
+)
+
+func VerifCdsNeedsPush(req *model.PushRequest, proxy *model.Proxy) (*model.PushRequest, bool) {
+	return cdsNeedsPush(req, proxy)
+}
+func VerifLdsNeedsPush(req *model.PushRequest, proxy *model.Proxy) bool { return ldsNeedsPush(proxy, req) }
+func VerifRdsNeedsPush(req *model.PushRequest, proxy *model.Proxy) bool { return rdsNeedsPush(req, proxy) }
+func VerifEdsNeedsPush(req *model.PushRequest, proxy *model.Proxy) bool { return edsNeedsPush(req, proxy) }
+func VerifNdsNeedsPush(req *model.PushRequest, proxy *model.Proxy) bool { return ndsNeedsPush(req, proxy) }
+func VerifCanSendPartialFullPushes(req *model.PushRequest) bool        { return canSendPartialFullPushes(req) }
+
+// VerifSkipTables returns the run-time value of the hand-maintained skip tables (for validating the
+// /verif translator against what the process actually uses).
+func VerifSkipTables() (flat map[string]sets.Set[kind.Kind], byNode map[string]map[model.NodeType]sets.Set[kind.Kind]) {
+	flat = map[string]sets.Set[kind.Kind]{
+		"skippedCdsConfigs":    skippedCdsConfigs,
+		"pushCdsGatewayConfig": pushCdsGatewayConfig,
+		"skippedRdsConfigs":    skippedRdsConfigs,
+		"skippedEdsConfigs":    skippedEdsConfigs,
+		"deltaAwareEdsConfigs": deltaAwareEdsConfigs,
+		"skippedNdsConfigs":    skippedNdsConfigs,
+	}
+	byNode = map[string]map[model.NodeType]sets.Set[kind.Kind]{
+		"skippedLdsConfigs":     skippedLdsConfigs,
+		"UnAffectedConfigKinds": UnAffectedConfigKinds,
+	}
+	return
+}
